@@ -32,6 +32,11 @@ func c20Thread(seed uint64, nops int) string {
 			var doc []byte
 			if r.Chance(1, 3) {
 				doc = bigDoc(r, 1+r.Intn(3), 0)
+				if r.Chance(1, 4) {
+					// more index buffers than the ring has slots, into the reused object (whose own
+					// index channel is then the one in use)
+					doc = bigDoc(r, 18+r.Intn(8), 0)
+				}
 			} else {
 				doc = genDoc(r, smallOpts(r))
 			}
